@@ -65,6 +65,74 @@ def k_parse_string_triple(t: str) -> bool:
   return r is not None and list(r) == ['the_string'] and r['the_string'] == body
 
 
+ESCAPES = [(chr(92) + "'", "'"), (chr(92) + chr(92), chr(92)), (chr(92) + 'n', chr(10)), (chr(92) + 't', chr(9))]
+
+
+class _LiteralEvalEscapes(object):
+  """ast.literal_eval on single-quoted literals whose only backslash sequences are the four in
+  ESCAPES (contract = Python's string literal semantics; validated against the interpreter)."""
+
+  @staticmethod
+  def literal_eval(s):
+    n = len(s)
+    assert s[0] == "'" and s[n - 1] == "'"
+    out = []
+    i = 1
+    while i < n - 1:
+      ch = s[i]
+      if ch == chr(92):
+        nx = s[i + 1]
+        assert i + 1 < n - 1
+        if nx == "'":
+          out.append("'")
+        elif nx == chr(92):
+          out.append(chr(92))
+        elif nx == 'n':
+          out.append(chr(10))
+        else:
+          assert nx == 't'
+          out.append(chr(9))
+        i += 2
+      else:
+        assert ch != "'" and ch != chr(10) and ch != chr(13)
+        out.append(ch)
+        i += 1
+    return ''.join(out)
+
+
+def sq_escape_is_data(t, e, pos, lo, hi):
+  for ch in t:
+    o = ord(ch)
+    if o < lo or o > hi or ch == "'" or ch == chr(92) or o == 10 or o == 13 or 0xD800 <= o <= 0xDFFF:
+      return True
+  esc, dec = ESCAPES[e]
+  body = t[:pos] + esc + t[pos:]
+  want = t[:pos] + dec + t[pos:]
+  saved = parse.ast
+  parse.ast = _LiteralEvalEscapes
+  try:
+    r = parse.ParseString("'" + body + "'")
+  finally:
+    parse.ast = saved
+  return r is not None and list(r) == ['the_string'] and r['the_string'] == want
+
+
+def k_parse_string_sq_escape_ascii(t: str, e: int, pos: int) -> bool:
+  """
+  pre: len(t) <= 2 and 0 <= e <= 3 and 0 <= pos <= len(t)
+  post: _
+  """
+  return sq_escape_is_data(t, e, pos, 0x20, 0x7f)
+
+
+def k_parse_string_sq_escape_nonascii(t: str, e: int, pos: int) -> bool:
+  """
+  pre: 1 <= len(t) <= 2 and 0 <= e <= 3 and 0 <= pos <= len(t)
+  post: _
+  """
+  return sq_escape_is_data(t, e, pos, 0x80, 0x2ff)
+
+
 class _LiteralEvalContract(object):
   """Stub for the environment function ast.literal_eval on the sub-domain used here: a
   single-quoted Python literal whose body has no backslash, quote or line break denotes its
@@ -216,6 +284,7 @@ def k_function_args_verbatim(a: str, b: str) -> bool:
 '''
 
 NAMES = ['k_parse_string_dq', 'k_parse_string_triple', 'k_parse_string_sq_ascii', 'k_parse_string_sq_latin1',
-         'k_parse_string_sq_bmp', 'k_parse_string_sq_astral', 'k_parse_string_never_mixes', 'k_user_flag_overrides',
+         'k_parse_string_sq_bmp', 'k_parse_string_sq_astral', 'k_parse_string_sq_escape_ascii',
+         'k_parse_string_sq_escape_nonascii', 'k_parse_string_never_mixes', 'k_user_flag_overrides',
          'k_default_flag_kept', 'k_undefined_flag_rejected', 'k_flag_value_is_data', 'k_dollar_form_expanded',
          'k_function_args_verbatim']
